@@ -502,6 +502,80 @@ def run(repo: Repo, ctx) -> None:
     ctx.ob('C18.R3', 'pgsql.common.quote_bytea_literal:hex', ok,
            'bytea literal payload is not the hex encoding of the data',
            bq.loc, sample="'\\x<hex>'::bytea")
+    # ... on every path: what any return interpolates comes from a hex
+    # encoding.  bytea input syntax gives the backslash a meaning, and the
+    # string quoting function passes it through (it doubles quotes only)
+    HEX = ('b2a_hex', 'hexlify', 'hex')
+    bdefs = {}
+    for st in ast.walk(bq.node):
+        if isinstance(st, ast.Assign) and len(st.targets) == 1 and \
+                isinstance(st.targets[0], ast.Name):
+            bdefs.setdefault(st.targets[0].id, []).append(st.value)
+
+    def _hexed(e, depth=4) -> bool:
+        if isinstance(e, ast.Call):
+            nm = (call_name(e) or norm(e.func)).split('.')[-1]
+            if nm in HEX:
+                return True
+            if nm in ('decode', 'lower', 'upper') and isinstance(
+                    e.func, ast.Attribute):
+                return _hexed(e.func.value, depth)
+            return False
+        if isinstance(e, ast.Name) and depth and e.id in bdefs:
+            return all(_hexed(v, depth - 1) for v in bdefs[e.id])
+        if isinstance(e, ast.FormattedValue):
+            return _hexed(e.value, depth)
+        return False
+    bparam = bq.params()[0]
+    n_ret = 0
+    for r in ast.walk(bq.node):
+        if not isinstance(r, ast.Return) or r.value is None:
+            continue
+        parts = []
+        for x in ast.walk(r.value):
+            if isinstance(x, ast.FormattedValue):
+                parts.append(x.value)
+            elif isinstance(x, ast.BinOp) and isinstance(x.op, ast.Add):
+                parts += [y for y in (x.left, x.right)
+                          if not isinstance(y, (ast.Constant, ast.BinOp,
+                                                ast.JoinedStr))]
+        if isinstance(r.value, (ast.Call, ast.Name)):
+            parts.append(r.value)
+        parts = [p_ for p_ in parts if not isinstance(p_, ast.Constant)]
+        if not parts:
+            continue
+        n_ret += 1
+        bad = [p_ for p_ in parts if not _hexed(p_)]
+
+        def _expand(e, depth=4):
+            yield e
+            for x in ast.walk(e):
+                if isinstance(x, ast.Name) and depth and x.id in bdefs:
+                    for v in bdefs[x.id]:
+                        yield from _expand(v, depth - 1)
+        for p_ in bad:
+            for e in _expand(p_):
+                for c in ast.walk(e):
+                    if isinstance(c, ast.Call) and (
+                            call_name(c) or norm(c.func)).split('.')[-1] \
+                            not in ('quote_literal', 'decode', 'str',
+                                    'format', 'isascii', 'isprintable'):
+                        raise AnalysisError(
+                            f'C18.R3: quote_bytea_literal builds its '
+                            f'payload through `{norm(c)[:50]}`, neither a '
+                            f'hex encoding nor the string quoting '
+                            f'function: cannot decide what it escapes')
+        ctx.ob('C18.R3', f'pgsql.common.quote_bytea_literal:hex-only@{n_ret}',
+               not bad,
+               f'quote_bytea_literal returns a literal whose payload '
+               f'`{norm(bad[0])[:50] if bad else ""}` is not a hex encoding '
+               f'of the data: a backslash in the data reaches the bytea '
+               f'input parser, which reads it as an escape (quote_literal '
+               f'only doubles quotes)', f'{bq.module.rel()}:{r.lineno}',
+               sample="every interpolated part is b2a_hex(data)")
+    if n_ret < 1:
+        raise AnalysisError('C18.R3: quote_bytea_literal has no '
+                            'interpolating return')
     # identifier quoting decisions
     nq = repo.func(f'{QUOTE}.needs_quoting')
     sparam = nq.params()[0]
